@@ -320,6 +320,11 @@ pub fn random_topology(rng: &mut SplitMix, cfg: &GraphGenCfg) -> (Vec<(u8, u8)>,
             }
         }
     }
+    // a vertex may be listed twice (two external legs on one vertex)
+    if !ext.is_empty() && rng.chance(1, 10) {
+        let d = ext[rng.below(ext.len() as u64) as usize];
+        ext.push(d);
+    }
     rng.shuffle(&mut ext);
     (edges, ext)
 }
